@@ -310,10 +310,13 @@ row(props=["C12"], func=API + "buildRestApiWithParameters", params=["ctx"], kind
 row(props=["C13"], func="var:pkg/application/arch/tequila.MergeHeaderFunc", params=["input"], kind="returns",
     expr='ite(contains(input, "."), call("beforeLast", input, "."), input)', what="merging by header maps a type to its package: everything before the last dot (the default package is the empty name)")
 GIT = "pkg/application/git."
-REVN = 'len(call("regexp.(Regexp).FindAllString", global("pkg/application/git.revReg"), text, -1)) == 1'
+HEAD = 'call("regexp.(Regexp).FindStringSubmatch", global("pkg/application/git.headerReg"), text)'
 row(props=["C14"], func=GIT + "ParseLog", params=["text"], kind="emits", target="globalstore:" + GIT + "currentCommit.Rev", tag={}, total=2, index=0,
-    when=REVN, fields={"value": 'call("regexp.(Regexp).FindStringSubmatch", global("pkg/application/git.revReg"), text)[1]'},
-    what="a line with exactly one revision marker starts a commit, whatever came before it (two headers may follow each other: merges, empty commits)")
+    when="len(%s) == 5" % HEAD, fields={"value": HEAD + "[1]"},
+    what="a line that has the header form starts a commit, whatever came before it (two headers may follow each other: merges, empty commits)")
+for i, fld in [(2, "Author"), (3, "Date"), (4, "Message")]:
+    row(props=["C14"], func=GIT + "ParseLog", params=["text"], kind="emits", target="globalstore:" + GIT + "currentCommit." + fld, tag={}, total=2, index=0,
+        when="len(%s) == 5" % HEAD, fields={"value": HEAD + "[%d]" % i}, what="header field %s is the matching group of the header pattern, uncut" % fld)
 CM = 'call("regexp.(Regexp).FindStringSubmatch", global("pkg/application/git.changeModeReg"), text)'
 row(props=["C14"], func=GIT + "buildChangeMode", params=["text"], kind="emits", target="mapstore:currentFileChangeMap", tag={}, total=1,
     when='len(%s) > 4 && has(global("pkg/application/git.currentFileChangeMap"), %s[4])' % (CM, CM), fields={"key": CM + "[4]", "value.Mode": CM + "[1]"},
